@@ -249,6 +249,18 @@ def run(ck):
                             if r is not o or not np.array_equal(o, exp):
                                 wrap_fail.append((key, a.tolist(), b.tolist(), ('positional ' if positional else '') + 'out= array did not receive the result'))
                                 bad = True
+                        # legal output arrays that are NOT fresh C-contiguous uint8 buffers: Fortran order, a strided window of a larger
+                        # buffer, a wider integer dtype -- the caller's array itself must receive the result
+                        bsh = np.broadcast(a, b).shape
+                        big = np.full(tuple(2 * d for d in bsh), 0xee, dtype=np.uint8)
+                        for what, o in (('Fortran-ordered', np.asfortranarray(np.full(bsh, 0xee, dtype=np.uint8))),
+                                        ('strided window', big[tuple(slice(None, None, 2) for _ in bsh)]),
+                                        ('int64', np.full(bsh, 0xee, dtype=np.int64))):
+                            r = fn(a, b, out=o)
+                            if not np.array_equal(np.asarray(o), exp) or (np.asarray(r) is not o and not np.shares_memory(np.asarray(r), o)):
+                                wrap_fail.append((key, a.tolist(), b.tolist(), f'{what} out= array did not receive the result'))
+                                bad = True
+                                break
                         if bad:
                             continue
                     else:
